@@ -48,6 +48,10 @@ def expected_model(c):
         return " ".join(go.split(" ")[:3])          # averr=.. closed=.. next=..
     if op == "trsplit":
         return "split=BAD" if go == "split=ERR" else go
+    if op == "muxcut":
+        return " ".join(x.split(":")[0] for x in go.split(" ")) + (" lin=skip" if "hang=BAD" in go else " lin=ok")
+    if op == "trmeta":
+        return go
     if op == "trpage":
         return "pure=BAD" if go.startswith("ERR") else go.split(":")[0]
     if op in ("trlate", "trcut"):
@@ -64,14 +68,22 @@ def generate(ctx=None):
 
 
 
+MON_KEYS = dict(trcut=("cut", "deliv", "hang", "ids", "fail"), trsplit=("split",), trpage=("pure",),
+                muxcut=("cut", "hang", "post"), trmeta=("recover",))
+
 CUT_WHAT = {
-    "cut": "a Transport call whose response was cut did not end with an error, or a later call to the same broker did not get a message "
+    "cut": "a call whose response was cut did not end with an error (or, on the Transport, a later call to the same broker did not get a message) "
            "(C17: a response cut off at any byte yields an error; the next request must dial a fresh connection)",
     "deliv": "a Transport call received the answer to ANOTHER call's request",
-    "hang": "after a cut response a later request to the same broker never returned, ignoring its context deadline (2 s watchdog): "
-            "the dead connection was still on the idle list and the hand-off `c.reqs <- connRequest` blocks forever",
+    "hang": "after a cut response another pending / later request never returned, ignoring its deadline (2 s watchdog): on the Transport the dead "
+            "connection was still on the idle list (hand-off blocks forever); on a kafka.Conn a waiter is parked on the read lock that the "
+            "abandoning operation did not release (C06_conn_fatal_releases_lock)",
     "split": "one Transport call split into several exchanges delivered the answer of one exchange under the question of another (or lost / "
              "invented an answer): the results handed to the merger are not aligned with the sub-requests (C06_transport_split_aligned)",
+    "post": "after a response was cut, a later operation on the same kafka.Conn did not fail, or still put a request on the wire",
+    "recover": "the first metadata response of a fresh Transport was cut; afterwards Client.Metadata did not recover within 10 MetadataTTLs, or "
+               "Writer.WriteMessages failed / did not deliver its record exactly once (C17: the Writer continues on a new connection)",
+    "lin": "the recorded history of concurrent Conn operations is not a run of the ConnMux model",
     "pure": "a Fetch call read, from the records of ITS response, bytes of the response to another call's request (or its response became "
             "unreadable) after other calls were served on the same Transport: cross-talk through the protocol package's page pool",
     "ids": "a correlation id was used twice on one transport connection (C06_pool_ids_increasing)",
@@ -100,28 +112,48 @@ def judge_monitor_case(c, m, keys):
     return pf, cf
 
 
-def transport_cut_cases(ctx, ncases=None):
-    """Transport half of C17 (also part of C06): harness op trcut only.  Same dict shape as
-    correspondence(): evaluations, distinct_nontrivial, hist, rule, samples, failures, extra."""
+def _monitor_family(ctx, flags, rule, extra_key):
     model = L.ocaml_build("c06")
-    n = ncases if ncases is not None else ctx.scale(18, 300)
-    out, dt = run_harness(ctx, 0, 0, av=0, late=0, cut=n, split=0, page=0)
+    base = dict(av=0, late=0, cut=0, split=0, page=0, muxcut=0, meta=0)
+    base.update(flags)
+    out, dt = run_harness(ctx, 0, 0, **base)
     cases = L.parse_cases(out)
     res = L.run_model(model, "\n".join(model_line(c) for c in cases) + "\n", timeout=600)
     failures = []
     for c in cases:
         c["line"] = f'{c["id"]} {c["op"]} {c["args"]}'
-        pf, cf = judge_monitor_case(c, res.get(c["id"]), ("cut", "deliv", "hang", "ids", "fail"))
+        pf, cf = judge_monitor_case(c, res.get(c["id"]), MON_KEYS[c["op"]])
         failures += [f for f in (pf, cf) if f]
     ev, dn, hist = L.coverage_counts(cases, trivial_feats=("",))
-    return dict(evaluations=ev, distinct_nontrivial=dn, hist=hist,
-                rule="Transport half of C17 through kafka.Transport (harness/cmd/c06 op trcut): the answer to one call is cut after k bytes "
-                     "(inside the size prefix, inside the correlation id, at 8, in the body, all but the last byte) and the connection closed "
-                     "or left silent until the call's deadline; 1-3 followers of other APIs for the same connection group, each under its own "
-                     "deadline and a 2 s watchdog; judged by the monitors extracted from coq/Model/TransportPool.v (mon_cut, mon_delivery, "
-                     "mon_nohang, mon_ids, mon_fail) on the recorded wire journal",
-                samples=[c["line"][:260] + " | " + c["go"][:100] + " | " + c["feats"] for c in cases[:3]],
-                failures=failures[:20], notes=[], extra=dict(transport_cut_cases=len(cases), harness_wall_s=round(dt, 1)))
+    return dict(evaluations=ev, distinct_nontrivial=dn, hist=hist, rule=rule,
+                samples=[c["line"][:260] + " | " + c["go"][:100] + " | " + c["feats"] for c in cases[:2] + cases[-1:]],
+                failures=failures[:20], notes=[], extra={extra_key: len(cases), "harness_wall_s": round(dt, 1)})
+
+
+def transport_cut_cases(ctx, ncases=None, nmeta=None):
+    """Transport half of C17 through kafka.Transport itself (also part of C06): harness ops trcut and
+    trmeta only.  Same dict shape as correspondence()."""
+    return _monitor_family(
+        ctx, dict(cut=ncases if ncases is not None else ctx.scale(18, 300), meta=nmeta if nmeta is not None else ctx.scale(10, 100)),
+        "Transport half of C17 through kafka.Transport (harness/cmd/c06): trcut = the answer to one call is cut after k bytes (inside the size prefix, "
+        "inside the correlation id, at 8, in the body, all but the last byte) and the connection closed or left silent until the call's deadline; 1-3 "
+        "followers of other APIs for the same connection group, each under its own deadline and a 2 s watchdog (monitors mon_cut, mon_delivery, "
+        "mon_nohang, mon_ids, mon_fail);  trmeta = the FIRST metadata response of a fresh Transport is cut at k (0, size prefix, header, body, len-1), "
+        "every later request answered: within 10 MetadataTTLs + slack Client.Metadata succeeds and Writer.WriteMessages delivers its record exactly once "
+        "(monitor mon_recover)", "transport_cut_cases")
+
+
+def conn_concurrent_cut_cases(ctx, ncases=None):
+    """Concurrent kafka.Conn half of C17 (also part of C06): harness op muxcut only.  2-3 concurrent
+    operations on one Conn, the answer to the first request cut at each position class; every pending
+    call returns an error within its deadline (2 s watchdog), a later call fails and writes nothing."""
+    return _monitor_family(
+        ctx, dict(muxcut=ncases if ncases is not None else ctx.scale(24, 400)),
+        "concurrent Conn half of C17 (harness/cmd/c06 op muxcut): 2-3 goroutines issue one operation each (ReadOffset, ReadPartitions, findCoordinator, "
+        "offsetFetch, ApiVersions) on ONE kafka.Conn under a 300 ms connection deadline; the answer to the request that arrived first is cut after k "
+        "bytes (0, size prefix, correlation id, 8, 9-11, mid-body, len-1) and the connection closed or left silent; every pending call must return an "
+        "error before the 2 s watchdog, a later ReadOffset must fail without writing; judged by the extracted monitor mon_conn_cut and by the "
+        "linearisation search of the ConnMux model", "conn_concurrent_cut_cases")
 
 
 def setup():
@@ -129,13 +161,15 @@ def setup():
     L.ocaml_build("c06")
 
 
-def run_harness(ctx, n, big, av=4, seed=None, late=None, cut=None, split=None, page=None):
+def run_harness(ctx, n, big, av=4, seed=None, late=None, cut=None, split=None, page=None, muxcut=None, meta=None):
     gobin = L.go_build("c06")
     rc, out, err, dt = L.sh([gobin, "-seed", str(seed if seed is not None else ctx.seed), "-n", str(n),
                              "-big", str(big), "-av", str(av), "-late", str(late if late is not None else ctx.scale(24, 300)),
                              "-cut", str(cut if cut is not None else ctx.scale(18, 300)),
                              "-split", str(split if split is not None else ctx.scale(40, 600)),
-                             "-page", str(page if page is not None else ctx.scale(12, 200))], timeout=1500)
+                             "-page", str(page if page is not None else ctx.scale(12, 200)),
+                             "-muxcut", str(muxcut if muxcut is not None else ctx.scale(24, 400)),
+                             "-meta", str(meta if meta is not None else ctx.scale(10, 100))], timeout=1500)
     if rc != 0:
         raise L.Fail("correspondence", "harness cmd/c06 crashed", (out[-1500:] + err[-2500:]))
     return out, dt
@@ -186,10 +220,10 @@ def correspondence(ctx):
                                      what="bytes left over from an abandoned ApiVersions exchange were delivered to the next call as its response",
                                      detail=c["line"][:400] + " -> " + c["go"][:200], input=inp))
                 continue
-        if c["op"] in ("trcut", "trsplit", "trpage"):
+        if c["op"] in ("trcut", "trsplit", "trpage", "muxcut", "trmeta"):
             if c["op"] == "trpage" and c["go"].startswith("ERR"):
                 c = dict(c, go="pure=BAD:" + c["go"])
-            pf, cf = judge_monitor_case(c, m, dict(trcut=("cut", "deliv", "hang", "ids", "fail"), trsplit=("split",), trpage=("pure",))[c["op"]])
+            pf, cf = judge_monitor_case(c, m, MON_KEYS[c["op"]])
             if pf:
                 failures.append(pf)
             if cf:
@@ -255,7 +289,7 @@ def correspondence(ctx):
                      "deadline, ctx cancel / deadline) checked by linearisation search against the extracted model (projection: order of requests "
                      "at the broker, order of complete answer frames per connection, outcome class per call); muxbig / trbig = 2-16 goroutines x "
                      "3-10 payload-tagged calls, predicate only (every returned value carries the caller's tag, every failure is an error); "
-                     "trlate = one Transport call whose context deadline expires mid-exchange, the broker answers LATE (released by the next request on that connection / timed), 1-3 followers of the same connection group (fc, lo, of) within the idle timeout; the whole wire journal (conn, correlation id per request and answer frame) and the call results go through the monitors extracted from Model/TransportPool.v (mon_delivery, mon_ids, mon_fail);  trsplit = one Transport call that is SPLIT into several exchanges (listoffsets with several (partition, timestamp) questions over a 2-4 broker cluster, listgroups over all brokers; some broker connections pre-warmed, per-answer and handshake delays) judged by mon_split: every question gets exactly the answer the broker produced for it;  trpage = 4-6 Client.Fetch calls on one Transport, record batches filled with the asking call's letter, call 0 closes the (nil / empty / non-empty) key and the value of each record it is done with while the other calls are served between its records (single P): no call reads a foreign byte (mon_pure);  trcut = the answer to one Transport call cut after k bytes (then closed / silent), 1-3 followers of the same connection group must each get their own answer on a fresh connection within their deadline (monitors mon_cut, mon_nohang, mon_delivery, mon_ids, mon_fail);  avopen / avstale = regression of the former ApiVersions defect (time-out inside the body must close; no left-over bytes delivered).  non-trivial = anything but a single undisturbed call",
+                     "trlate = one Transport call whose context deadline expires mid-exchange, the broker answers LATE (released by the next request on that connection / timed), 1-3 followers of the same connection group (fc, lo, of) within the idle timeout; the whole wire journal (conn, correlation id per request and answer frame) and the call results go through the monitors extracted from Model/TransportPool.v (mon_delivery, mon_ids, mon_fail);  trsplit = one Transport call that is SPLIT into several exchanges (listoffsets with several (partition, timestamp) questions over a 2-4 broker cluster, listgroups over all brokers; some broker connections pre-warmed, per-answer and handshake delays) judged by mon_split: every question gets exactly the answer the broker produced for it;  muxcut = 2-3 concurrent operations on one kafka.Conn, the first answer cut at byte k (closed / silent): all return an error before the watchdog, nothing is written afterwards (mon_conn_cut + linearisation);  trmeta = first metadata response of a fresh Transport cut: Client.Metadata and a Writer recover (mon_recover);  trpage = 4-6 Client.Fetch calls on one Transport, record batches filled with the asking call's letter, call 0 closes the (nil / empty / non-empty) key and the value of each record it is done with while the other calls are served between its records (single P): no call reads a foreign byte (mon_pure);  trcut = the answer to one Transport call cut after k bytes (then closed / silent), 1-3 followers of the same connection group must each get their own answer on a fresh connection within their deadline (monitors mon_cut, mon_nohang, mon_delivery, mon_ids, mon_fail);  avopen / avstale = regression of the former ApiVersions defect (time-out inside the body must close; no left-over bytes delivered).  non-trivial = anything but a single undisturbed call",
                 samples=[c["line"][:260] + " | " + c["go"][:100] for c in cases[:2] + cases[len(cases)//3:len(cases)//3+2]
                          + cases[2*len(cases)//3:2*len(cases)//3+2] + cases[-2:]],
                 extra=dict(per_op=per_op, tagged_calls_ok=ok_calls, tagged_calls_err=err_calls,
